@@ -36,7 +36,8 @@ RULE = (
 )
 ASSUMPTIONS = [
     "reference model = DESIGN.md 3.4 (with context: context + locals of the enclosing scopes at that point; without: environment globals only)",
-    "only environment globals are used (template-level globals are not part of the generated domain)",
+    "template-level globals (get_template(name, globals=...)) are visible to the entry, its with-context includes/imports and its "
+    "direct imports without context; a miss anywhere further away is discarded as undocumented",
     "discarded: macro closure reads of a top-level name assigned later while an outer binding exists (DESIGN.md 3.2 artefact)",
     "errors compared by class family; TemplatesNotFound counts as TemplateNotFound",
 ]
@@ -87,7 +88,7 @@ def check_case(case):
             env = tsets.make_env(ir, enable_async=flag)
             for name in ir["entries"]:
                 try:
-                    got = {"out": tsets.render_entry(env, name, data, loop)}
+                    got = {"out": tsets.render_entry(env, name, data, loop, (ir.get("tglobals") or {}).get(name))}
                 except _errs() as e:
                     got = {"err": family(e)}
                 if got != expected[name]:
